@@ -289,9 +289,12 @@ package keeper
 //@ ensures [reads_only] nothing_written()
 //@ iter 0 invariant [nothing_visited_yet] $k == 0 && query.QueryData == nil
 
-// PreventBridgeWithdrawalReport decodes the query data with go-ethereum's abi package (not modelled): trusted.
+// PreventBridgeWithdrawalReport decodes the query data with go-ethereum's abi package (Unpack as the inverse of Pack, tools/govc/abi.go).
 //@ func (k Keeper).PreventBridgeWithdrawalReport(queryData) (isDeposit, err)
-//@ trusted
+//@ ensures [a_bridge_withdrawal_query_is_never_reportable] forall id int :: bytes(queryData) == abienc("string,bytes", "TRBBridge", abienc("bool,uint256", false, id)) ==> err != nil
+//@ ensures [only_bridge_deposit_queries_are_flagged_as_deposits] isDeposit ==> err == nil && abidec_str("string,bytes", bytes(queryData), 0) == "TRBBridge" && abidec_bool("bool,uint256", abidec_bytes("string,bytes", bytes(queryData), 1), 0)
+//@ ensures [other_query_types_pass] err == nil && !isDeposit ==> abidec_str("string,bytes", bytes(queryData), 0) != "TRBBridge"
+//@ ensures [reads_only] nothing_written()
 
 //@ func (k msgServer).SubmitValue(ctx, msg) (resp, err)
 //@ requires [msg_present] msg != nil
